@@ -195,20 +195,16 @@ public:
               this->deallocate();
               exchange_memory(*this, img);
           } else {
-              // cannot propagate the allocator and cannot adopt the memory
-              if (img._memory)
-              {
-                  allocate_and_copy(img.dimensions(), img._view);
-                  destruct_pixels(img._view);
-                  img.deallocate();
-                  img._view = image::view_t{};
-              }
-              else
-              {
-                  destruct_pixels(this->_view);
-                  this->deallocate();
-                  this->_view = view_t{};
-              }
+              // cannot propagate the allocator and cannot adopt the memory: copy the pixels into
+              // storage obtained from our own allocator, then leave the source empty
+              image tmp(img._align_in_bytes, Alloc(_alloc));
+              tmp.allocate_and_copy(img.dimensions(), img._view);
+              destruct_pixels(_view);
+              this->deallocate();
+              exchange_memory(*this, tmp);
+              destruct_pixels(img._view);
+              img.release_storage();
+              img._align_in_bytes = 0;
           }
       }
 
@@ -394,13 +390,22 @@ private:
             allocate_(dimensions, std::integral_constant<bool, IsPlanar>());
             uninitialized_copy_pixels(v, _view);
         }
-        catch(...) { deallocate(); throw; }
+        catch(...) { release_storage(); throw; }
     }
 
     void deallocate()
     {
         if (_memory && _allocated_bytes > 0)
             _alloc.deallocate(_memory, _allocated_bytes);
+    }
+
+    // deallocates and leaves an empty image behind (the pixels must have been destroyed already)
+    void release_storage()
+    {
+        deallocate();
+        _memory = nullptr;
+        _allocated_bytes = 0;
+        _view = view_t();
     }
 
     std::size_t is_planar_impl(
